@@ -28,7 +28,7 @@ def handle (case obs : List String) : String × String :=
         | some c =>
           let (frs, left) := Spec.Framing.split (dataOf c.evs)
           let msgs := frs.filterMap (payloadMsg c.tab)
-          let rest := (obs.filter (fun t => t ≠ "p")).drop msgs.length
+          let rest := (obs.filter (fun t => t ≠ "p" && tokKind t ≠ 'a')).drop msgs.length
           verdict [("no-panic", !obs.any isBad),
                    ("case-is-valid-stream", left.isEmpty && msgs.length == frs.length),
                    ("messages-in-order", obsMsgs obs == msgs),
